@@ -44,6 +44,7 @@ func c15Corpus(absTarget string) []string {
 		"../x", "..", ".", "", "a/../../x", "./../x", "a/./../../x", "sub/../../x", "a/b/../../../x", "../../x", "../arch/../x",
 		absTarget, "/" + strings.TrimPrefix(absTarget, "/"), "//" + strings.TrimPrefix(absTarget, "/"),
 		"x/", "a//x", "a/../x", "./x", "sub/./x",
+		"/../x", "//../x", "/sub/../../x", "/sub/x", "/x", "\\/../x",
 		"..\\x", "sub\\..\\..\\x", "\\..\\x", "sub/..\\../x", "a\\x",
 		"ab\x00../x", "../x\x00tail", long, "../" + long, ".hidden", "..hidden", "...", "a/..", "a/../..", "a/.../x", " ../x", "../x ", "~/x", "$HOME/x",
 	}
